@@ -30,7 +30,7 @@ REAL = ["rpyc.core.brine", "rpyc.core.channel.Channel", "rpyc.core.protocol.Conn
 STUB = ["the other party in directions (a)/(b) is the independent reference peer", "sockets/time/locks (simulator)"]
 ASSUMPTIONS = ["ref/codec.py is the published format (tags 0x00-0x1b, immediate ints -0x30..0x9f as 0x20..0xef, '!LB' header, newline trailer, "
                "zlib level 1 above 3000 bytes, kinds 1-3, labels 1-4, handlers 1-20)"]
-PROBES = ["c19:compressed-frame", "c19:long-tag", "c19:ref-client", "c19:ref-server", "c19:real-real", "c19:boxing-label", "c19:incompressible-payload", "c19:async-helper-call", "c19:unrepresentable-text"]
+PROBES = ["c19:compressed-frame", "c19:long-tag", "c19:ref-client", "c19:ref-server", "c19:real-real", "c19:boxing-label", "c19:incompressible-payload", "c19:async-helper-call", "c19:unrepresentable-text", "c19:no-zlib-platform"]
 
 
 def check_stream(sim, raw, compress_enabled, who, allow_cut=False):
@@ -221,6 +221,12 @@ def run_one(choices, params):
     strat = pair.draw_strategy(c)
     comp_real = bool(c.draw(2))
     comp_other = bool(c.draw(2))
+    # platform knob: an interpreter built without zlib (rpyc then holds a falsy stand-in for the module).  The format's answer is
+    # "never compress": the application may still ask for compression, frames must go out with flag 0, and nobody sends it flagged frames
+    no_zlib = c.draw(8) == 0
+    comp_wire = comp_real and not no_zlib
+    if no_zlib:
+        comp_other = False
     info = {"states": set()}
     V = RC.LABEL_VALUE
 
@@ -382,7 +388,7 @@ def run_one(choices, params):
         sim.block(lambda: srv.state == core.DONE, 20, "wait-real")
         if not conn.closed:
             raise core.Violation("meaning-differs", "handler 2 (close) did not close the real side")
-        check_stream(sim, b"".join(raw), comp_real, "real server", allow_cut=True)
+        check_stream(sim, b"".join(raw), comp_wire, "real server", allow_cut=True)
         peer.close()
         return True
 
@@ -646,7 +652,7 @@ def run_one(choices, params):
                     raise core.Violation("meaning-differs", "big argument")
         del root
         conn.close()
-        check_stream(sim, b"".join(raw), comp_real, "real client")
+        check_stream(sim, b"".join(raw), comp_wire, "real client")
         if RC.H_CLOSE not in seen and not any(h == RC.H_CLOSE for h in seen):
             pass
         return True
@@ -698,19 +704,27 @@ def run_one(choices, params):
         del root
         ca.close()
         sim.block(lambda: srv.state == core.DONE, 5, "wait-B")
-        check_stream(sim, b"".join(rawa), comp_real, "real A")
+        check_stream(sim, b"".join(rawa), comp_wire, "real A")
         check_stream(sim, b"".join(rawb), comp_other, "real B", allow_cut=True)     # B may be cut off mid-frame by A's close
         return True
 
     main = {"ref-client": main_ref_client, "ref-server": main_ref_server, "real-real": main_real_real}[direction]
 
     def guarded(sim, k):
+        import rpyc.core.channel as CH
+        import rpyc.lib as RL
+        have = CH.zlib
+        if no_zlib:
+            CH.zlib = RL.MissingModule("zlib")
+            sim.count("c19:no-zlib-platform")
         try:
             return main(sim, k)
         except PeerEOF:
-            raise core.Violation("reference-request-rejected", "the real side hung up on the reference peer")
+            raise core.Violation("reference-request-rejected", "the real side hung up on the reference peer%s" % (" (platform without zlib)" if no_zlib else ""))
         except PeerProtocolError as e:
             raise core.Violation("frame-layout", "the reference peer cannot read what the real side wrote: %s" % e)
+        finally:
+            CH.zlib = have
     out, sim = H.simulate(choices, guarded, strategy=strat, netcfg=cfg, step_cap=3000000)
     if out["kind"] == "deadlock":
         out = {"kind": "violation", "cls": "reference-request-rejected", "detail": "deadlock %s" % (H.blocked_in(out["report"]),), "sig": None,
